@@ -538,3 +538,16 @@ def _m_add_moves(mod):
         return True
 
     return mod if replace_in_func(mod, "Class.add_class", edit) else None
+
+
+@SPEC.mutant("placeholder merge works on a shallow copy", AST, "R06.13", "no shallow copy")
+def _m_shallow_merge(mod):
+    def edit(fn):
+        for st in ast.walk(fn):
+            if isinstance(st, ast.Assign) and isinstance(st.targets[0], ast.Subscript) and norm(st.targets[0].value) == "self.classes" \
+                    and isinstance(st.value, ast.Subscript) and norm(st.value.value) == "other.classes":
+                st.value = ast.parse("copy.copy(%s)" % norm(st.value), mode="eval").body
+                return True
+        return False
+
+    return mod if replace_in_func(mod, "Class._extend", edit) else None
